@@ -951,3 +951,113 @@ Proof.
            sequentially; the model's retry is a run from [s] itself *)
         exact (IH s q' r Hcp Hca Hin).
 Qed.
+
+(** * Soundness of the executable specification K_P (mode S)
+
+    If K_P accepts a recorded run, the locked inserts (arrivals at
+    [insert:inserted], each with the "new" flag K_P later compares with what
+    Insert returned) and the deliveries, in recorded order, are a run of the
+    abstract coalescing queue. *)
+
+Definition ks_lin1 (k : kss) (t : tid) (e : sev) (acc : list lev) : list lev :=
+  match t, e with
+  | TP n, SAt PtInserted =>
+      match nth_kpp (ks_pp k) n with
+      | KChecked i => LIns i (snd (aq_insert i (ks_aq k))) :: acc
+      | _ => acc
+      end
+  | TC, SRetNext (NItem j d) => LPop j d :: acc
+  | _, _ => acc
+  end.
+
+Fixpoint ks_fold (k : kss) (steps : list (tid * sev)) (acc : list lev) : option (kss * list lev) :=
+  match steps with
+  | [] => Some (k, acc)
+  | (t, e) :: r =>
+      match ksstep k t e with
+      | inl k' => ks_fold k' r (ks_lin1 k t e acc)
+      | inr _ => None
+      end
+  end.
+
+Ltac brk H :=
+  repeat match type of H with
+         | context [match ?x with _ => _ end] => destruct x eqn:?; try discriminate
+         end.
+
+Lemma ksstep_sound k t e k' acc :
+  aq_replay acc = Some (ks_aq k) -> ksstep k t e = inl k' ->
+  aq_replay (ks_lin1 k t e acc) = Some (ks_aq k').
+Proof.
+  intros Ha Hk. unfold ksstep in Hk.
+  destruct e as [p|r|r| | | |]; try discriminate.
+  - (* SAt *)
+    destruct ((match t with TC => false | _ => ks_blocked k end) && negb (may_wait k)); [discriminate|].
+    destruct t as [n| | |]; try discriminate.
+    + destruct (nth_kpp (ks_pp k) n) as [|i|i ex lv] eqn:Ep; destruct p; try discriminate.
+      * destruct (nth_prog (ks_progs k) n); [discriminate|].
+        destruct (ks_closed k); [discriminate|]. inversion Hk; subst. cbn. rewrite ?Ep. exact Ha.
+      * destruct (aq_insert i (ks_aq k)) as [q' new] eqn:Ei. inversion Hk; subst. cbn.
+        rewrite Ep. cbn. rewrite Ha, Ei. cbn. rewrite Bool.eqb_reflx. reflexivity.
+    + destruct p; try discriminate. inversion Hk; subst. exact Ha.
+  - (* SRetIns *)
+    destruct ((match t with TC => false | _ => ks_blocked k end) && negb (may_wait k)); [discriminate|].
+    destruct t as [n| | |]; try discriminate.
+    destruct (nth_kpp (ks_pp k) n) as [|i|i ex lv] eqn:Ep; destruct r as [b|]; try discriminate.
+    + destruct (nth_prog (ks_progs k) n); [discriminate|].
+      destruct (ks_closed k); [|discriminate]. inversion Hk; subst. exact Ha.
+    + destruct (Bool.eqb b ex); [|discriminate]. inversion Hk; subst. exact Ha.
+  - (* SRetNext *)
+    destruct ((match t with TC => false | _ => ks_blocked k end) && negb (may_wait k)); [discriminate|].
+    destruct t as [n| | |]; try discriminate.
+    + destruct (nth_kpp (ks_pp k) n); discriminate.
+    + destruct r as [j d| | |]; try discriminate.
+      * destruct (ks_aq k) as [|[i c] q'] eqn:Eq; [discriminate|].
+        destruct (N.eqb_spec i j) as [<-|]; cbn in Hk; [|discriminate].
+        destruct (N.eqb_spec c d) as [<-|]; cbn in Hk; [|discriminate].
+        inversion Hk; subst. cbn. rewrite Ha, !N.eqb_refl. reflexivity.
+      * destruct (ks_closed k); [|discriminate].
+        match type of Hk with (if ?c then _ else _) = _ => destruct c end; [discriminate|]. inversion Hk; subst. exact Ha.
+      * destruct (ks_cancelled k); [|discriminate]. inversion Hk; subst. exact Ha.
+  - (* SBlocked *)
+    destruct ((match t with TC => false | _ => ks_blocked k end) && negb (may_wait k)); [discriminate|].
+    destruct t as [n| | |]; try discriminate.
+    + destruct (nth_kpp (ks_pp k) n); discriminate.
+    + cbn zeta in Hk. destruct (may_wait _); [|discriminate]. inversion Hk; subst. exact Ha.
+  - (* SRet *)
+    destruct ((match t with TC => false | _ => ks_blocked k end) && negb (may_wait k)); [discriminate|].
+    destruct t as [n| | |]; try discriminate.
+    + destruct (nth_kpp (ks_pp k) n); discriminate.
+    + inversion Hk; subst. exact Ha.
+    + inversion Hk; subst. exact Ha.
+Qed.
+
+Theorem K_sched_sound steps : forall k k' acc acc',
+  aq_replay acc = Some (ks_aq k) -> ks_fold k steps acc = Some (k', acc') ->
+  aq_replay acc' = Some (ks_aq k') /\ hist_ok acc' (ks_aq k').
+Proof.
+  induction steps as [|[t e] r IH]; intros k k' acc acc' Ha Hf; cbn in Hf.
+  - inversion Hf; subst. split; [assumption|apply aq_replay_hist_ok; assumption].
+  - destruct (ksstep k t e) as [k1|] eqn:E; [|discriminate].
+    eapply IH; [|exact Hf]. eapply ksstep_sound; eauto.
+Qed.
+
+(** the checker's verdict is empty only if the fold accepts *)
+Lemma ks_run_fold steps : forall i k fb fl acc,
+  ks_run i k steps fb fl = [] -> exists k' acc', ks_fold k steps acc = Some (k', acc').
+Proof.
+  induction steps as [|[t e] r IH]; intros i k fb fl acc H; cbn in *.
+  - eauto.
+  - destruct (ksstep k t e) as [k1|]; [eapply IH; eauto|discriminate].
+Qed.
+
+Corollary K_sched_check_sound progs steps fb fl :
+  check_case (CSched progs steps fb fl) = [] ->
+  exists k' acc',
+    ks_fold (mkKS [] false false (map (fun _ => KIdle) progs) progs false []) steps [] = Some (k', acc') /\
+    aq_replay acc' = Some (ks_aq k') /\ hist_ok acc' (ks_aq k').
+Proof.
+  intros H. unfold check_case in H. apply app_eq_nil in H. destruct H as [_ H].
+  destruct (ks_run_fold _ _ _ _ _ [] H) as (k' & acc' & Hf).
+  exists k', acc'. split; [exact Hf|]. eapply K_sched_sound; [|exact Hf]. reflexivity.
+Qed.
